@@ -21,7 +21,7 @@ ASSUMPTIONS = ["thresholds are the ones the property states: attenuation <= -40 
                ">= 90 % of its high-passed, re-aligned amplitude on its peak channel", "a 'few neighbouring channels' = the 7 nearest sites with a Gaussian footprint of sigma 0.4-0.7 site pitches (retention falls "
                "smoothly with footprint width: measured 0.94-0.97 in that range, 0.89-0.91 at sigma 1.0-1.3, which is no longer 'a few channels')", "grouped filters are compared with per-group calls using default padding on both sides"]
 REQUIRED = {"default_header_checked": 2, "labels_true_checked": 2, "labels_true_with_bad_channels": 2, "stripe_attenuations": 8, "spike_retentions": 8, "outside_checked": 6, "car_zero_reference": 10, "group_equals_separate": 20,
-            "agc_products": 20, "referencing_through_destripe": 16, "settings_through_destripe": 4, "lfp_forwarding_checked": 3, "file_headers_checked": 4}
+            "agc_products": 20, "referencing_through_destripe": 16, "settings_through_destripe": 4, "lfp_forwarding_checked": 3, "file_headers_checked": 4, "few_channel_arrays": 4}
 CASE_TIMEOUT = 120.0
 KINDS = ["3B2", "NP2.1", "NP2.4", "NPultra"]
 
@@ -96,6 +96,14 @@ def run_case(case):
                     res.check(keep >= 0.90, "destripe:spike-retention", f"{label}: spike at channel {c0} ({int((foot > 0).sum())} sites) keeps {keep:.1%} of its high-passed amplitude",
                               counter="spike_retentions")
                 sigs.add((kind, kf, rep))
+                # ---- fewer channels than the k-filter's lateral padding (60): a short selection, one shank of a few sites, what is left inside the brain
+                if rep == 0:
+                    m = int(rng.integers(20, 60))
+                    hs = {k_: np.asarray(v_)[:m] for k_, v_ in h.items()}
+                    o_few = V.destripe(st[:m].copy(), fs, h=hs, neuropixel_version=1, k_filter=kf)
+                    att = GS.db(GS.rms(o_few[:, sl]), GS.rms(ref[:m, sl])) if o_few.shape == (m, ns) else np.inf
+                    res.check(o_few.shape == (m, ns) and att <= -40.0, "destripe:few-channels", f"{label}: on the first {m} channels only the result has shape {o_few.shape} "
+                              f"and the stripe is attenuated by {att:.1f} dB (needs {(m, ns)}, <= -40 dB)", counter="few_channel_arrays")
                 # ---- the defaults of the call: header derived from the probe version, labels deduced from the data, no version = no correction
                 if rep == 0 and kind in ("NPultra", "NP2.4"):
                     # the generation named the way the library names it (a string for NPultra, 2.4 for four-shank probes), with and without a header
